@@ -62,18 +62,13 @@ def play(factory, history, mode):
 
 
 def classify(history, key, got):
-    for op in history:
-        if op[0] == "eval_input":
-            v, k = op[1], op[2]
-            try:
-                shared = set(M.prefixes(key)) & set(M.prefixes(k))
-            except Exception:
-                shared = set()
-            if shared:
-                # the key is a prefix of the polluted query, or was computed on top of a polluted prefix
-                alt = M.Sem(key, input_value=v)
-                if alt.ok and M.same_value(M._simple(alt.value), got):
-                    return K_INPUT
+    """Is the served value what the model of the known defect (evalmodel.PollutedSim) predicts for this history?"""
+    if not any(op[0] == "eval_input" for op in history):
+        return None
+    sim = M.PollutedSim().play(history)
+    fr = sim.cached.get(key)
+    if fr is not None and M.same_value(M._simple(fr.value), got):
+        return K_INPUT
     return None
 
 
@@ -120,7 +115,7 @@ def bounded(tier, seed):
         for q in targets:
             ops = M.related_ops(q)
             for mode in modes:
-                rounds = 1 if tier == "quick" else 3
+                rounds = 2 if tier == "quick" else 4
                 for r in range(rounds):
                     h = list(ops)
                     rnd.shuffle(h)
